@@ -8,6 +8,7 @@
 -/
 import Gotree.Lemmas.C03
 import Gotree.Lemmas.C03Ops
+import Gotree.Model.C01
 
 namespace Gotree.C03
 open Gotree
@@ -79,6 +80,47 @@ theorem edges_partition (t : T) : (edges t).Perm (internalEdges t ++ tipEdges t)
 theorem edges_count (t : T) : (edges t).length = (internalEdges t).length + (tipEdges t).length := by
   simpa using (edges_partition t).length_eq
 
+/-! ### the oracle the driver evaluates holds of the model's own enumerations -/
+
+/-- a listed branch as the public API shows it when the heap is the tree: `Left()` is the parent -/
+def obsOfEdge (r : EdgeRef) : ObsEdge := ⟨some r.path, some r.path.dropLast, some r.path⟩
+
+/-- The Spec predicate `enumProblems` (what the driver evaluates on the implementation's five
+    enumerations after every step) finds nothing wrong with the model's enumerations, for every tree:
+    the oracle asks nothing the transliterated code does not deliver. -/
+theorem enum_oracle_holds (t : T) :
+    enumProblems t ((nodes t).map (fun r => some r.path)) ((tips t).map (fun r => some r.path))
+      ((edges t).map obsOfEdge) ((internalEdges t).map obsOfEdge) ((tipEdges t).map obsOfEdge) = [] := by
+  have hn : ((nodes t).map (fun r => some r.path)).filterMap id = allPaths t := by
+    rw [← nodes_paths]; simp [List.filterMap_map]
+  have hid : ∀ l : List EdgeRef, (l.map obsOfEdge).filterMap (·.id) = l.map (·.path) := by
+    intro l; induction l <;> simp_all [obsOfEdge]
+  have ht : ((tips t).map (fun r => some r.path)).filterMap id = (allPaths t).filter (isTipAt t) := by
+    rw [tips_are_leaves, ← nodes_paths]; simp [List.filterMap_map, List.filter_map, Function.comp_def]
+  have c3 : sameBag (allPaths t) (allPaths t) = true := sameBag_of_perm (List.Perm.refl _)
+  have c4 : sameBag ((edges t).map (·.path)) (allPaths t).tail = true := by
+    rw [edges_paths]; exact sameBag_of_perm (List.Perm.refl _)
+  have c5 : (((edges t).map obsOfEdge).length + 1 == ((nodes t).map (fun r => some r.path)).length) = true := by
+    simpa using edges_nodes t
+  have c6 : sameBag ((edges t).map (·.path)) ((internalEdges t).map (·.path) ++ (tipEdges t).map (·.path)) = true := by
+    rw [← List.map_append]
+    exact sameBag_of_perm ((edges_partition t).map _)
+  have c7 : (((edges t).map obsOfEdge ++ (internalEdges t).map obsOfEdge ++ (tipEdges t).map obsOfEdge).all
+      (fun e => e.right == e.id && e.left == e.id.map List.dropLast)) = true := by
+    simp [obsOfEdge]
+  have c8 : sameBag ((allPaths t).filter (isTipAt t)) ((allPaths t).filter (isTipAt t)) = true :=
+    sameBag_of_perm (List.Perm.refl _)
+  have c9 : sameBag ((tipEdges t).map (·.path)) ((allPaths t).tail.filter (isTipAt t)) = true := by
+    rw [tipEdges_are_tip_branches, ← edges_paths]
+    simp only [List.filter_map, Function.comp_def]
+    exact sameBag_of_perm (List.Perm.refl _)
+  have c1 : (((nodes t).map (fun r => some r.path)).any (·.isNone) || ((tips t).map (fun r => some r.path)).any (·.isNone)) = false := by
+    simp
+  have c2 : (((edges t).map obsOfEdge ++ (internalEdges t).map obsOfEdge ++ (tipEdges t).map obsOfEdge).any (·.id.isNone)) = false := by
+    simp [obsOfEdge]
+  unfold enumProblems
+  simp only [hn, hid, ht, c1, c2, c3, c4, c5, c6, c7, c8, c9, if_true, Bool.false_eq_true, if_false, List.append_nil]
+
 /-! ### the transliterations equal Core's spec-level definitions -/
 
 theorem nodes_eq_core (t : T) : (nodes t).map (·.d.name) = t.nodeNames := nodesRecur_names t []
@@ -112,6 +154,18 @@ theorem internalEdges_pinned_fails :
   revert this
   decide
 
+/-! ### the repaired defect F39 (331c4ae), with the pinned writer variant kept by C01 -/
+
+/-- what `UnRoot` leaves of a rooted two-tip tree: a root that is a tip -/
+def witnessRootTip : T := T.node ⟨"t0", []⟩ 0 [(EdgeD.blank, T.leaf "t1")]
+
+/-- before 331c4ae the writer printed no parentheses for a root with a single neighbour
+    (`t1t0;`): the text, re-read, is not the tree; the repaired writer's text (`(t1)t0;`) is -/
+theorem rootTipNewick_pinned_fails :
+    textProblems witnessRootTip (String.ofList (Gotree.Newick.writePinned Gotree.Newick.goCodec witnessRootTip)) ≠ [] ∧
+    textProblems witnessRootTip (Gotree.Newick.writeStr Gotree.Newick.goCodec witnessRootTip) = [] := by
+  decide +kernel
+
 /-! ### histories: the invariant is closed under every composed operation model -/
 
 /-- the invariant of edit histories: unique tip names, and no single-child inner node as long as
@@ -124,7 +178,8 @@ theorem InvB_iff (ns : Bool) (t : T) : InvB ns t = true ↔ Inv ns t := by
 
 /-- closure, one operation: from a tree satisfying the invariant (and the operation's
     precondition: only pruning has one), a SUCCESSFUL edit yields a tree satisfying it, with the
-    promise updated by `promised` (dropped exactly by re-rooting a rooted tree) -/
+    promise updated by `promised` (dropped by re-rooting a rooted tree at another node, and by an applied
+    NNI on a non-binary tree; restored by RemoveSingleNodes) -/
 theorem op_ok (ns : Bool) (op : EditOp) (t t' : T) (h : Inv ns t) (hp : opPre ns op t = true)
     (ho : applyOp op t = .ok t') : Inv (promised ns op t) t' := by
   obtain ⟨hu, hns⟩ := h
@@ -332,16 +387,19 @@ theorem op_ok (ns : Bool) (op : EditOp) (t t' : T) (h : Inv ns t) (hp : opPre ns
           simp [hm] at this
         exact ⟨(Gotree.C15.insertIdentical_tips t _ groups hi hu hne).1,
           fun hpr => insertIdentical_ns hi (hns hpr)⟩
-  | outgroup strict S =>
-    simp only [opPre, Bool.and_eq_true] at hp
+  | outgroup remove strict S =>
     simp only [applyOp] at ho
-    have := (Gotree.C05.P.outgroup_preserves t t' strict S ((Gotree.C05.uniq_iff t).2 hu) hp.1 hp.2 ho).1
-    exact ⟨this.nodup_iff.mpr hu, fun hpr => by simp [promised] at hpr⟩
+    refine ⟨?_, fun hpr => outgroup_noSingle ho (hns hpr)⟩
+    cases remove with
+    | true => exact outgroup_remove_nodup ho hu
+    | false =>
+      simp only [opPre, Bool.false_or, Bool.and_eq_true] at hp
+      exact ((Gotree.C05.P.outgroup_preserves t t' strict S ((Gotree.C05.uniq_iff t).2 hu) hp.1 hp.2 ho).1).nodup_iff.mpr hu
   | midpoint =>
     simp only [opPre, Bool.and_eq_true] at hp
     simp only [applyOp] at ho
     have := (Gotree.C05.P.midpoint_preserves t t' ((Gotree.C05.uniq_iff t).2 hu) hp.1 hp.2 ho).2.1
-    exact ⟨this.nodup_iff.mpr hu, fun hpr => by simp [promised] at hpr⟩
+    exact ⟨this.nodup_iff.mpr hu, fun hpr => midpoint_noSingle ho (hns hpr)⟩
   | graftEdge name k =>
     simp only [opPre, Bool.not_eq_true', List.contains_eq_mem, decide_eq_false_iff_not] at hp
     simp only [applyOp] at ho
